@@ -52,6 +52,10 @@ PROBLEMS = [
     ('matzero', 'MatrixGrader', '(x-1.25)*[[1,2],[3,4]]', ['x'],
      lambda x, y: ('arr', [(x - 1.25), 2 * (x - 1.25), 3 * (x - 1.25), 4 * (x - 1.25)]), 'array', '[[1,1],[1,1]]', 2.0),
     ('numzero', 'NumericalGrader', '0', [], lambda x, y: 0.0, 'scalar', None, 1.0),
+    # a variable-free answer that still changes from sample to sample: f is an (author-defined)
+    # function sampling set handing out f_k(t) = t + x_k; x is the value f(2) - 2
+    ('rfn', 'FormulaGrader', 'f(2)+1', [], lambda x, y: x + 3.0, 'scalar', None, 1.0),
+    ('rfn2', 'FormulaGrader', 'f(2)*f(2)', [], lambda x, y: (x + 2.0) ** 2, 'scalar', None, 1.0),
     ('num', 'NumericalGrader', '3.5*2', [], lambda x, y: 7.0, 'scalar', None, 1.0),
     ('numc', 'NumericalGrader', '2+3*i', [], lambda x, y: 2 + 3j, 'complex', None, 1.0),
 ]
@@ -156,7 +160,13 @@ class Run(object):
         self.dev_calls += 1
         ev = self.cur
         n = self.p['n']
-        if self.variables:
+        if self.name in ('rfn', 'rfn2'):
+            xs = [2.0 + v for v in self.xvals(ev)]
+            try:
+                k = xs.index(x)
+            except ValueError:
+                raise RuntimeError('dev() saw a value no sampled function produces: %r' % (x,))
+        elif self.variables:
             xs = self.xvals(ev)
             try:
                 k = xs.index(x)
@@ -203,6 +213,14 @@ class Run(object):
             cfg['max_array_dim'] = 2
         dev = lambda x: self.dev(x)  # noqa: E731
         cfg['user_functions'] = {'dev': dev}
+        if self.name in ('rfn', 'rfn2'):
+            SimFunctionSet = seams.sim_classes()['SimFunctionSet']
+
+            def shifted(c):
+                return lambda t: t + c
+            fset = SimFunctionSet(name='fset', funcs=[shifted(c) for c in self.xvals(ev)])
+            fset.env = self.env
+            cfg['user_functions']['f'] = fset
         ans = {'expect': self.ans, 'grade_decimal': self.p['credit'], 'msg': self.p['msg']}
         if ev['form'] == 'inf':
             cfg['allow_inf'] = True
@@ -226,6 +244,8 @@ class Run(object):
         form = ev['form']
         self.cur = ev
         arg = 'x' if self.variables else '0'
+        if self.name in ('rfn', 'rfn2'):
+            arg = 'f(2)'
         if form in ('add', 'mult'):
             deltas = []
             bad = []
